@@ -33,6 +33,7 @@ func init() {
 		}
 		return math.IsInf(args[0].(float64), sign)
 	}
+	externals["math.Signbit"] = fp1(func(x string) *Sym { return &Sym{SBool, app("fp.isNegative", x)} }, func(f float64) any { return math.Signbit(f) })
 	externals["math.Inf"] = func(fr *frame, args []value) value { return math.Inf(int(asInt64(args[0]))) }
 	externals["math.NaN"] = func(fr *frame, args []value) value { return math.NaN() }
 	externals["math.Float64bits"] = func(fr *frame, args []value) value {
